@@ -24,6 +24,7 @@ func (r *Router) parseParamRoute(route *Route) (first string) {
 
 		regexStr := checkAndParseOptional(quotePointChar(path))
 		route.regex = regexp.MustCompile("^" + regexStr + "$")
+		route.goodRegexGroups()
 		return
 	}
 
@@ -76,7 +77,15 @@ func (r *Router) parseParamRoute(route *Route) (first string) {
 	// replace {var} -> regex str
 	regexStr := strings.NewReplacer(varRegex...).Replace(path)
 	route.regex = regexp.MustCompile("^" + regexStr + "$")
+	route.goodRegexGroups()
 	return
+}
+
+// check the capturing groups number, it must equal to the path vars number.
+func (r *Route) goodRegexGroups() {
+	if r.regex.NumSubexp() != len(r.matches) {
+		panic("invalid route path, dont allow capturing group '(...)' in path: " + r.path)
+	}
 }
 
 // parse the start string and first node of a dynamic route path.
